@@ -103,6 +103,11 @@ func (lv LiteralValue) completeBoolAtPos(ctx context.Context, pos hcl.Pos) []lan
 				value = "true"
 			}
 			prefixLen := pos.Byte - eType.Range().Start.Byte
+			if prefixLen < 0 || prefixLen > len(value) {
+				// The position is outside of the literal
+				// (e.g. right after the equals sign)
+				return []lang.Candidate{}
+			}
 			prefix := value[0:prefixLen]
 			return lv.boolLiteralValueCandidates(prefix, eType.Range())
 		}
